@@ -345,6 +345,18 @@ class EMut(Engine):
             return tuple(bools)
         fi = FaultyIterable(bools, o.get('k') if f == 'faulty' else None)
         made.append(fi)
+        via = o.get('via')
+        if via == 'gen':
+            return (v for v in fi)              # a genuine generator object over the producer
+        if via == 'badbool' and f == 'faulty' and _isint(o.get('k')) and 0 <= o['k'] < len(bools):
+            # a plain list whose k-th item cannot be evaluated as a bool
+            class _Bad:
+                def __bool__(self_):
+                    fi.fired = True
+                    raise InjectedProducerFault(f'item {o["k"]} has no truth value')
+            return bools[:o['k']] + [_Bad()] + bools[o['k'] + 1:]
+        if via == 'badbool':
+            return (v for v in fi)
         return fi
 
     def _osrc(self, o):
@@ -1452,7 +1464,9 @@ class EMut(Engine):
             L = 4 * g.int(1, 5)
         bits = g.bits(L)
         if r < cfg['p_bad'] + cfg['p_pf']:
-            return {'f': 'faulty', 'b': bits, 'k': g.pick([0, L // 2, max(L - 1, 0), L])}
+            return {'f': 'faulty', 'b': bits, 'k': g.pick([0, L // 2, max(L - 1, 0), L]), 'via': g.pick(['obj', 'gen', 'gen', 'badbool'])}
+        if f == 'iterable' and g.chance(0.5):
+            return {'f': f, 'b': bits, 'via': 'gen'}
         return {'f': f, 'b': bits}
 
     def _enc(self, g, p, n, is_start):
